@@ -186,7 +186,7 @@ Section Spec.
             end
         | _ => (s, SAny)
         end
-    | OInit h _ => (mark_dk (ensure_job s h) h, SOk)
+    | OInit h _ | OEnter h => (mark_dk (ensure_job s h) h, SOk)
     | OSp h => (s, SJson (cellS s (sh_cell (hS s h))))
     | OCached h => (s, SJson (cellS s (sh_cell (hS s h))))
     | OIdPath h => (s, SAny)
@@ -299,7 +299,7 @@ Section Spec.
   Definition op_handle (o : op) : option nat :=
     match o with
     | OInit h _ | OSp h | OCached h | ODoc h | ODocReset h _ | ODocSet h _ _ | OCopy h | ODeepCopy h | OPickle h
-    | OEdit h _ _ | OAssign h _ | OUpdateSp h _ _ | OMove h _ | OClone _ h | OReset h => Some h
+    | OEdit h _ _ | OAssign h _ | OUpdateSp h _ _ | OMove h _ | OClone _ h | OReset h | OEnter h => Some h
     | _ => None
     end.
 
@@ -395,6 +395,9 @@ Section Spec.
        exactly. *)
     | ODoc h | ODocSet h _ _ | ODocReset h _ =>
         if stale_handle s h then 3 else 0
+    (* `with job:` trusts a stale _directory_known as well: FileNotFoundError from chdir instead of re-creating the job *)
+    | OEnter h =>
+        match job_of s h with None => if sh_dk (hS s h) then 3 else 0 | Some _ => 0 end
     | _ => 0
     end.
 
